@@ -49,6 +49,7 @@ class KDCollatorBase:
             if collator.default_collate_mode == "after":
                 assert not called_default_collate
                 batch = default_collate(batch)
+                called_default_collate = True
 
         if return_ctx:
             return batch, ctx
